@@ -103,17 +103,26 @@ def run(ctx):
     bdefs = bf.defs()
     boe = G.param_slot(bf, 2)
     boe_loads = FL.loads_of(bf, boe)
-    finals = []
+    dvals, dslots = G.derived(bf, boe)
+    ftor_calls = [c for c in bf.calls() if c.indirect]
+    finals = []          # terminating NUL stores behind the loop: through old_end or a cursor derived from it, with no functor call after them
+    finals_old_end = []  # ... those that go through old_end itself (directly or as one input of a ?: )
     for i in bf.insts():
-        if i.op == "store" and G.parse_store(i)[0] == "0":
+        if i.op == "store" and G.parse_store(i)[0] == "0" and i.text.startswith("store i8 "):
             p = G.parse_store(i)[1]
             d = bdefs.get(p)
-            if p in boe_loads or (d is not None and d.op in ("phi", "select") and any(o in boe_loads for o in d.ops)):
+            through_oe = p in boe_loads or (d is not None and d.op in ("phi", "select") and any(o in boe_loads for o in d.ops))
+            derived_ptr = through_oe or p in dvals or (d is not None and d.op == "load" and G.parse_load(d) in dslots) or \
+                (d is not None and d.op in ("phi", "select") and any(o in dvals for o in d.ops))
+            if derived_ptr and not any(bf.reaches(i, c) for c in ftor_calls):
                 finals.append(i)
-    ctx.ob("R09.1", "bundle_foreach: NUL store at old_end exists", len(finals) >= 1, site="%s:%s" % (bf.file, bf.line),
+                if through_oe:
+                    finals_old_end.append(i)
+    ctx.ob("R09.1", "bundle_foreach: NUL store at old_end exists", len(finals_old_end) >= 1, site="%s:%s" % (bf.file, bf.line),
            what="bundle_foreach no longer stores a NUL at old_end: the caller's buffer keeps the expanded name")
-    pos_slots = [FL.slot_of_local(bf, n) for n in ("pos", "pos2")]
-    ctx.require(all(pos_slots), "bundle_foreach: cursors pos / pos2 not found")
+    # the write cursors: locals that hold a pointer derived from old_end (whatever they are called)
+    pos_slots = sorted(dslots - {boe})
+    ctx.require(len(pos_slots) >= 1, "bundle_foreach: no write cursor derived from old_end found")
     bwrites = []
     for i in bf.insts():
         if i.op == "store" and i.text.startswith("store i8 "):
@@ -121,7 +130,6 @@ def run(ctx):
             d = bdefs.get(p)
             if d is not None and d.op == "load" and G.parse_load(d) in pos_slots and not any(i is x for x in finals):
                 bwrites.append(i)
-    ftor_calls = [c for c in bf.calls() if c.indirect]
     ctx.require(len(bwrites) >= 3 and len(ftor_calls) == 1, "bundle_foreach: appends (%d) / functor call (%d) not found" % (len(bwrites), len(ftor_calls)))
     brets = [i for i in bf.insts() if i.op == "ret"]
     for w in bwrites + ftor_calls:
@@ -136,22 +144,52 @@ def run(ctx):
                 fd_ast = (ctx.ast(un), fns[0])
     ctx.require(fd_ast is not None, "bundle_foreach AST not found")
     ub, bfn = fd_ast
-    last = [s for s in A.kids(ub.body(bfn)) if s.get("kind") == "BinaryOperator" and s.get("opcode") == "="][-1:]
+    # on the `cut_afterwards` edge every path to the return stores the NUL through old_end (IR: works for `*(c ? a : b) = 0`
+    # and for `if(c) *a = 0; else *b = 0;` alike)
+    pnames = [p_.get("name") for p_ in ub.params(bfn)]
+    ctx.require("cut_afterwards" in pnames, "bundle_foreach: parameter cut_afterwards not found")
+    cslot = G.param_slot(bf, pnames.index("cut_afterwards"))
+    cvals = set(FL.loads_of(bf, cslot))
+    changed = True
+    while changed:
+        changed = False
+        for i in bf.insts():
+            if i.op in ("trunc", "zext", "icmp") and i.res not in cvals and any(o in cvals for o in i.ops):
+                cvals.add(i.res)
+                changed = True
     okcut = False
-    if last:
-        l = A.strip_casts(A.kids(last[0])[0])
-        if l.get("kind") == "UnaryOperator" and l.get("opcode") == "*":
-            c = A.strip_casts(A.kids(l)[0])
-            if c.get("kind") == "ConditionalOperator":
-                cnd, t, e = A.kids(c)
-                okcut = A.ref_name(cnd) == "cut_afterwards" and A.ref_name(t) == "old_end" and A.int_literal(A.kids(last[0])[1]) == 0
-    ctx.ob("R09.1", "bundle_foreach: cut at old_end when cut_afterwards", okcut, site=A.where(last[0]) if last else A.where(bfn),
-           what="bundle_foreach's last statement is not `*(cut_afterwards ? old_end : ...) = 0`")
+    nbr = 0
+    for i in bf.insts():
+        if i.op == "br" and len(i.succs) == 2 and any(o in cvals for o in i.ops):
+            nbr += 1
+            # which successor is the `true` side: icmp ne 0 / trunc -> first successor
+            cd = bdefs.get([o for o in i.ops if o in cvals][0])
+            inverted = cd is not None and cd.op == "icmp" and cd.text.split()[1] == "eq"
+            tsucc = i.succs[1] if inverted else i.succs[0]
+            first = bf.bmap[tsucc].insts[0]
+            if first in finals_old_end:
+                okcut = True
+            else:
+                okcut = FL.escapes(bf, first, finals_old_end, brets) is None
+    ctx.require(nbr >= 1, "bundle_foreach: no branch on cut_afterwards found in the IR")
+    ctx.ob("R09.1", "bundle_foreach: cut at old_end when cut_afterwards", okcut, site="%s:%s" % (bf.file, bf.line),
+           what="bundle_foreach does not end with a NUL stored at old_end on the cut_afterwards path")
 
     # ---------------- R09.2
     fr0 = u.function("walk_ports_recurse0")
-    loops = [x for x in A.walk(u.body(fr0)) if x.get("kind") == "ForStmt" and any(A.callee_name(c) == "walk_ports_recurse0" for c in A.calls_in(x))]
-    ctx.require(len(loops) == 1, "walk_ports_recurse0: expansion loop not found")
+    def _bound_from_atoi(lp_):
+        c_ = lp_.get("inner", [None] * 5)[2]
+        if not c_ or not c_.get("kind"):
+            return False
+        for y in A.walk(c_):
+            if y.get("kind") == "DeclRefExpr" and (y.get("referencedDecl") or {}).get("kind") == "VarDecl":
+                d_ = u.by_id.get(y["referencedDecl"]["id"])
+                if d_ is not None and A.kids(d_) and any(A.callee_name(k_) == "atoi" for k_ in A.calls_in(d_)):
+                    return True
+        return False
+    # the expansion loop: the for loop of walk_ports_recurse0 that counts up to the number read after '#'
+    loops = [x for x in A.walk(u.body(fr0)) if x.get("kind") == "ForStmt" and _bound_from_atoi(x)]
+    ctx.require(len(loops) == 1, "walk_ports_recurse0: expansion loop not found (%d candidates)" % len(loops))
     lp = loops[0]
     cond = lp["inner"][2]
     bid = [y["referencedDecl"]["id"] for y in A.walk(cond) if y.get("kind") == "DeclRefExpr" and y["referencedDecl"]["name"] != "i"]
@@ -168,29 +206,45 @@ def run(ctx):
         raise AnalysisBroken("R09.2: expansion loop not evaluable: %s" % e)
     ctx.ob("R09.2", "walk_ports_recurse0", not bad and bool(from_atoi), site=A.where(lp), detail={"mismatches": bad, "bound_is_atoi_after_#": bool(from_atoi)},
            what="walk_ports_recurse0 expands `#N` to %s" % bad[:2])
-    loopsb = [x for x in A.walk(ub.body(bfn)) if x.get("kind") == "ForStmt"]
-    ctx.require(len(loopsb) == 1, "bundle_foreach: expansion loop not found")
+    # the expansion loop of bundle_foreach: the for loop that calls the functor (outermost such)
+    ftor_ids = {p_["id"] for p_ in ub.params(bfn) if p_.get("name") == "ftor"} or {ub.params(bfn)[-4]["id"]}
+
+    def _calls_ftor(x_):
+        return any(y.get("kind") in ("CallExpr", "CXXOperatorCallExpr") and A.kids(y) and A.ref_id(A.kids(y)[0]) in ftor_ids for y in A.walk(x_))
+    loopsb = [x for x in A.walk(ub.body(bfn)) if x.get("kind") == "ForStmt" and _calls_ftor(x)]
+    loopsb = [x for x in loopsb if not any(x is not o and any(y is x for y in A.walk(o)) for o in loopsb)]
+    ctx.require(len(loopsb) == 1, "bundle_foreach: expansion loop not found (%d candidates)" % len(loopsb))
     lpb = loopsb[0]
     condb = lpb["inner"][2]
-    itid = [y["referencedDecl"]["id"] for y in A.walk(condb) if y.get("kind") == "DeclRefExpr" and y["referencedDecl"]["name"] != "i"][0]
+    init_b = lpb["inner"][0]
+    ivars = {d_["id"] for d_ in A.walk(init_b) if d_.get("kind") == "VarDecl"} if init_b and init_b.get("kind") else set()
+    bound_ids = [y["referencedDecl"]["id"] for y in A.walk(condb) if y.get("kind") == "DeclRefExpr" and y["referencedDecl"]["id"] not in ivars]
+    ctx.require(len(bound_ids) == 1 and len(ivars) == 1, "bundle_foreach: loop variable / bound not identified")
+    itid = bound_ids[0]
+    ivar_b = next(iter(ivars))
     itd = ub.by_id[itid]
-    # iterations = (expand_bundles && !ranges) ? max : 1
-    ids = {y["referencedDecl"]["name"]: y["referencedDecl"]["id"] for y in A.walk(A.kids(itd)[-1]) if y.get("kind") == "DeclRefExpr"}
-    maxd = ub.by_id.get(ids.get("max"))
-    from_atoi_b = maxd is not None and A.kids(maxd) and A.strip_casts(A.kids(maxd)[-1]).get("kind") == "CallExpr" and A.callee_name(A.strip_casts(A.kids(maxd)[-1])) == "atoi"
+    # iterations = (expand_bundles && !ranges) ? max : 1  - max being the local read with atoi after the '#'
+    refs_b = {}
+    for y in A.walk(A.kids(itd)[-1]):
+        if y.get("kind") == "DeclRefExpr":
+            refs_b[y["referencedDecl"]["id"]] = y["referencedDecl"].get("name")
+    max_ids = [i_ for i_ in refs_b if ub.by_id.get(i_) is not None and ub.by_id[i_].get("kind") == "VarDecl" and A.kids(ub.by_id[i_]) and
+               any(A.callee_name(k_) == "atoi" for k_ in A.calls_in(ub.by_id[i_]))]
+    from_atoi_b = len(max_ids) == 1
+    ids = {nm_: i_ for i_, nm_ in refs_b.items()}
     bad = []
     try:
         for N in range(5):
-            env = {ids.get("max"): N, ids.get("expand_bundles"): 1, ids.get("ranges"): 0}
+            env = {(max_ids[0] if max_ids else None): N, ids.get("expand_bundles"): 1, ids.get("ranges"): 0}
             its = FD.Eval(env=env).ev(A.kids(itd)[-1])
             got = _loop_indices(ub, lpb, itid, its)
             if got != list(range(N)):
                 bad.append({"N": N, "indices": got})
-            # the printed number is the loop variable
     except FD.Unknown as e:
         raise AnalysisBroken("R09.2: bundle_foreach loop not evaluable: %s" % e)
+    # the printed number is the loop variable
     printed = [c for c in A.calls_in(lpb, "snprintf") if A.string_literal(A.kids(c)[3]) == "%d"]
-    pr_ok = len(printed) == 1 and A.ref_name(A.kids(printed[0])[4]) == "i"
+    pr_ok = len(printed) == 1 and A.ref_id(A.kids(printed[0])[4]) == ivar_b
     ctx.ob("R09.2", "bundle_foreach", not bad and bool(from_atoi_b) and pr_ok, site=A.where(lpb), detail={"mismatches": bad, "bound_is_atoi_after_#": bool(from_atoi_b), "prints_loop_index": pr_ok},
            what="bundle_foreach expands `#N` to %s" % bad[:2])
     pr0 = [c for c in A.calls_in(lp, "snprintf") if A.string_literal(A.kids(c)[3]) == "%d/"]
